@@ -30,6 +30,10 @@ PROPS = {
                 "panic recovery and a time-out; non-trivial = corrupted, multi-record or CRLF; distinct = distinct byte stream",
     },
     "C06": {
+        "extra_imports": ["Gofasta.Lemmas.ClosestOrder"],
+        "extra_theorems": ["Gofasta.Lemmas.ClosestOrder.topK_spec_on", "Gofasta.Lemmas.ClosestOrder.hitLt_swoOn_nat", "Gofasta.Lemmas.ClosestOrder.hitLt_swoOn_rat",
+                           "Gofasta.Lemmas.ClosestOrder.closestN_exact", "Gofasta.Lemmas.ClosestOrder.closest_exact", "Gofasta.Lemmas.ClosestOrder.closestN_exact_characterised",
+                           "Gofasta.Lemmas.ClosestOrder.closestN_exact_eq_spec", "Gofasta.Lemmas.ClosestOrder.hitLt_not_swo"],
         "cli": True,
         "streams": {"C06": (600, 10000)},
         "thorough_seeds": 3,
